@@ -4,11 +4,11 @@ From Coq Require Import List Bool ZArith QArith Qcanon.
 From AL Require Import Base.CaseLib C16.Model C16.Spec C16.Proofs.
 Import ListNotations.
 
-Lemma run2_independent : forall ka za kb zb ops sa sb,
+Lemma run2_independent : forall (M : addable) ka (za : M) kb zb ops sa sb,
   on_side SideA (run2 ka za kb zb sa sb ops) = run ka za sa (on_side SideA ops) /\
   on_side SideB (run2 ka za kb zb sa sb ops) = run kb zb sb (on_side SideB ops).
 Proof.
-  intros ka za kb zb ops.
+  intros M ka za kb zb ops.
   induction ops as [|[s o] r IH]; intros sa sb; [split; reflexivity|].
   destruct s; cbn [run2].
   - destruct (step ka za sa o) as [sa' x] eqn:E.
@@ -19,12 +19,12 @@ Proof.
     unfold on_side in *; cbn [filter fst side_eqb map snd run]. rewrite E. split; [exact IHa | f_equal; exact IHb].
 Qed.
 
-Lemma run2_independent_spec : forall ka za kb zb ops,
+Lemma run2_independent_spec : forall (M : addable) ka (za : M) kb zb ops,
   on_side SideA (run2 ka za kb zb init init ops) = spec_run ka za [] 0 false (on_side SideA ops) /\
   on_side SideB (run2 ka za kb zb init init ops) = spec_run kb zb [] 0 false (on_side SideB ops).
 Proof.
-  intros ka za kb zb ops.
-  destruct (run2_independent ka za kb zb ops init init) as [Ha Hb].
+  intros M ka za kb zb ops.
+  destruct (run2_independent M ka za kb zb ops init init) as [Ha Hb].
   rewrite Ha, Hb. split; apply run_eq_spec_run.
 Qed.
 
